@@ -28,7 +28,7 @@ pub fn marker(case_idx: u64, text: &str) {
 
 pub fn worker_main(prop: &dyn Prop, ctx: Ctx, w: u64, nw: u64, start_unit: u64) {
     crate::monitor::install_panic_hook();
-    crate::monitor::start_cpu_watchdog(30_000_000);
+    crate::monitor::start_cpu_watchdog(prop.cpu_limit_s(ctx.tier) * 1_000_000);
     let n = prop.units(ctx.tier);
     let mut first = true;
     let mut u = start_unit;
@@ -143,8 +143,10 @@ struct Agg {
 }
 
 impl Agg {
-    fn absorb(&mut self, v: &Value) {
-        self.units_done += 1;
+    fn absorb(&mut self, v: &Value, complete: bool) {
+        if complete {
+            self.units_done += 1;
+        }
         self.evals += v["evals"].as_u64().unwrap_or(0);
         self.dbc += v["dbc"].as_u64().unwrap_or(0);
         if let Some(h) = v["hashes"].as_array() {
@@ -270,11 +272,16 @@ pub fn run_check(prop: &dyn Prop, tier: Tier, seed: u64, triage: bool) -> i32 {
                     st.frecord = None;
                 } else if let Some(r) = l.strip_prefix("U ") {
                     match serde_json::from_str::<Value>(r) {
-                        Ok(v) => agg.absorb(&v),
+                        Ok(v) => agg.absorb(&v, true),
                         Err(e) => agg.inconclusive.push(format!("bad unit record: {}", e)),
                     }
                     st.unit = None;
                     st.marker = None;
+                } else if let Some(r) = l.strip_prefix("P ") {
+                    match serde_json::from_str::<Value>(r) {
+                        Ok(v) => agg.absorb(&v, false),
+                        Err(e) => agg.inconclusive.push(format!("bad partial record: {}", e)),
+                    }
                 } else if let Some(r) = l.strip_prefix("F ") {
                     st.frecord = serde_json::from_str::<Value>(r).ok();
                 } else if l == "D" {
